@@ -236,7 +236,11 @@ def gen(rng, tier, i):
             nets = [x for x in t if x != 'con']
             if len(nets) >= 2:
                 c, dd = rng.sample(nets, 2)
-                if rng.random() < 0.5: p.cycle(say(c, 'do sc me snoop ' + bomb_script('snoop').replace(';', ',')))
+                r2 = rng.random()
+                if r2 < 0.4: p.cycle(say(c, 'do sc me snoop ' + bomb_script('snoop').replace(';', ',')))
+                # the snooper reacts to what it sees by removing the user it watches (or itself): the driver is in the middle of
+                # handing that user's text around
+                elif r2 < 0.6: p.cycle(say(c, 'do sc me snoop ' + rng.choice(('dest u%d' % dd, 'dest me', 'rmi u%d' % dd, 'as u%d quit' % dd))))
                 p.cycle(say(c, 'do snoop u%d' % dd))
                 p.cycle(say(dd, rng.choice(('do echo snooped%d' % dd, 'look', 'do flush;echo again'))))
                 if rng.random() < 0.3: p.cycle(say(c, 'do snoop 0'))
